@@ -269,14 +269,17 @@ class Front:
     """A client-side view of one deployment: `send` takes the request target exactly as a client writes it on the
     request line and passes it through the front (none / WSGI container / reverse proxy) to the real application."""
 
-    def __init__(self, srv, mode, prefix, login=None):
+    def __init__(self, srv, mode, prefix, login=None, style="strict"):
         assert mode in MODES
         self.srv, self.mode, self.prefix, self.login = srv, mode, prefix, login
+        self.safe = "/" if style == "strict" else "/!$&'()*+,;=:@"
         self.log = []
 
     def client_url(self, path):
-        """How a client spells the URL of a storage path it wants to create (its own percent-encoding)."""
-        return urllib.parse.quote(self.prefix + path, safe="/")
+        """How a client spells the URL of a storage path it wants to create (its own percent-encoding):
+        'strict' escapes everything but unreserved characters, 'pchar' leaves the sub-delims and : @ raw,
+        which RFC 3986 allows inside a path segment."""
+        return urllib.parse.quote(self.prefix + path, safe=self.safe)
 
     def send(self, method, target, headers=None, data=None):
         import base64
@@ -349,3 +352,22 @@ def etags_of(body):
                 coll = True
         out.append((href, etag, coll))
     return out
+
+
+# ------------------------------------------------------------------ servers on a memory file system when there is one
+import contextlib
+import shutil
+import tempfile
+
+
+@contextlib.contextmanager
+def fast_server(conf):
+    """vlib.impl.Server over a folder in /dev/shm (renames on a loaded disk dominate the run time otherwise)."""
+    from vlib.impl import Server
+    base = "/dev/shm" if os.path.isdir("/dev/shm") and os.access("/dev/shm", os.W_OK) else None
+    folder = tempfile.mkdtemp(prefix="rv-c18-", dir=base)
+    srv = Server(conf, folder=folder)
+    try:
+        yield srv
+    finally:
+        shutil.rmtree(folder, ignore_errors=True)
